@@ -2,7 +2,7 @@
 # regression over all kept seeds: every seed must still be reported by its property's quick check (or the sibling
 # check recorded for it) on a scratch copy of /repo's HEAD with the seed applied.  usage: dev/seed_regress.sh [ids...]
 cd /verif
-declare -A SIB=( [C07h]=C15 [C10h]=C14 [C10f]=C14 [C11f]=C01 [C12f]=C01 [C08e]=C02 [C09e]=C11 [C01h]=C03 [C11b]=C02 [C14g]=C14 [C01b]=C17 [C02f]=C09 [C07c]=C04 [C07e]=C03 [C15d]=C04 [C06r]=C09 [C11r]=C08 [C12q]=C01 [C15r]=C03 [C18q]=C03 [C07q]=C17 [C01s]=C17 [C07k]=C04 [C02l]=C09 [C06v]=C09 [C13u]=C15 [C11u]=C15 [C02u]=C13 [C04u]=C01 [C01u]=C03 [C04h]=C03 [C15o]=C04 [C09u]=C09 )
+declare -A SIB=( [C07h]=C15 [C10h]=C14 [C10f]=C14 [C11f]=C01 [C12f]=C01 [C08e]=C02 [C09e]=C11 [C01h]=C03 [C11b]=C02 [C14g]=C14 [C01b]=C17 [C02f]=C09 [C07c]=C04 [C07e]=C03 [C15d]=C04 [C06r]=C09 [C11r]=C08 [C12q]=C01 [C15r]=C03 [C18q]=C03 [C07q]=C17 [C01s]=C17 [C07k]=C04 [C02l]=C09 [C06v]=C09 [C13u]=C15 [C11u]=C15 [C02u]=C13 [C04u]=C01 [C01u]=C03 [C04h]=C03 [C15o]=C04 [C09u]=C09 [C14w]=C10 )
 ids="$@"; [ -z "$ids" ] && ids=$(ls seeded | grep -E '^C[0-9]{2}[a-z]$')
 for id in $ids; do
   p=${id:0:3}
